@@ -30,7 +30,14 @@ type bFate struct {
 }
 
 func runPipeB(label string, bseed uint64) (obsLine string) {
-	withLabel(label, func() { obsLine = runPipeBLabelled(label, bseed) })
+	// NewSession has to get its first connection within the scenario's short ConnectTimeout: on a starved machine
+	// that can fail without any fault of the driver; the scenario is then set up again
+	for try := 0; try < 5; try++ {
+		withLabel(fmt.Sprintf("%s.%d", label, try), func() { obsLine = runPipeBLabelled(fmt.Sprintf("%s.%d", label, try), bseed) })
+		if !strings.HasPrefix(obsLine, "fatal:") {
+			break
+		}
+	}
 	return
 }
 
